@@ -79,8 +79,8 @@ theorem findSgrM_other {ps is : List Char} {f : Char} (h : OtherCsi ps is f) (re
     · simp [findSgrM, h1, hs]
 
 /-- … so the tokenizer keeps it in the text -/
-theorem tokAux_other {ps is : List Char} {f : Char} (h : OtherCsi ps is f) (rest acc : List Char) :
-    tokAux false (csiSeq ps is f ++ rest) 0 acc = tokAux false rest 0 (acc ++ csiSeq ps is f) := by
+theorem tokAux_other (bel : Bool) {ps is : List Char} {f : Char} (h : OtherCsi ps is f) (rest acc : List Char) :
+    tokAux false bel (csiSeq ps is f ++ rest) 0 acc = tokAux false bel rest 0 (acc ++ csiSeq ps is f) := by
   have hne : ∀ c ∈ '[' :: (ps ++ (is ++ [f])), c ≠ ESC := by
     intro c hc
     simp only [List.mem_cons, List.mem_append, List.not_mem_nil, or_false] at hc
@@ -90,7 +90,7 @@ theorem tokAux_other {ps is : List Char} {f : Char} (h : OtherCsi ps is f) (rest
     · exact (inter_facts (h.inters c hc)).2.1
     · exact (final_facts h.final).1
   have h1 : findM false (ps ++ (is ++ f :: rest)) = none := findSgrM_other h rest
-  have h2 := tokAux_plain false ('[' :: (ps ++ (is ++ [f]))) rest (acc ++ [ESC]) hne
+  have h2 := tokAux_plain false bel ('[' :: (ps ++ (is ++ [f]))) rest (acc ++ [ESC]) hne
   simp only [csiSeq, List.cons_append, List.append_assoc, List.nil_append] at h2 ⊢
   simp only [tokAux, if_true, h1] at h2 ⊢
   exact h2
@@ -171,7 +171,7 @@ theorem decodeLine_other_csi (cfg : Cfg) (hl : cfg.sgrLazy = false) (st : Style)
   have e1 : R cfg st (t1 ++ csiSeq ps is f ++ t2) [] = R cfg st [] (t1 ++ csiSeq ps is f ++ t2) := by
     have a := R_text cfg st t1 (csiSeq ps is f ++ t2) [] (textOk_noEsc h1)
     have b : R cfg st (csiSeq ps is f ++ t2) ([] ++ t1) = R cfg st t2 (([] ++ t1) ++ csiSeq ps is f) := by
-      unfold R; rw [hl, tokAux_other h]
+      unfold R; rw [hl, tokAux_other _ h]
     have c := R_text cfg st t2 [] (([] ++ t1) ++ csiSeq ps is f) (textOk_noEsc h2)
     simp only [List.append_assoc, List.nil_append, List.append_nil] at a b c ⊢
     rw [a, b, c]
